@@ -365,6 +365,8 @@ def write_replay(pid, q, f, idx):
             if st.get("hidden"):
                 continue
             loc = st.get("sourceLocation") or {}
+            if loc.get("function") is None:
+                continue
             if st.get("stepType") == "assignment":
                 fh.write("%s:%s %s = %s\n" % (loc.get("function"), loc.get("line"), st.get("lhs"),
                                               (st.get("value") or {}).get("data")))
